@@ -668,29 +668,36 @@ def mRefs (rs : List MReader) (sid : Nat) : Nat :=
 
 /-! ### collector (`gcLocked`) -/
 
-/-- one removal attempt; `none` when nothing can be removed -/
-def Mem.gcOnce (s : Mem) : Option Mem :=
-  let aofTry : Option Mem :=
-    match s.segs with
+/-- `gcLocked`, first alternative: drop the oldest stream segment if it is
+    closed, unreferenced and not the writer's current one -/
+def Mem.gcAof (s : Mem) : Option Mem :=
+  match s.segs with
+  | first :: rest =>
+    if first.closed && mRefs s.readers first.sid == 0 && s.aofW != some first.sid then
+      some { s with segs := rest, total := s.total - first.data.length, heap := first :: s.heap }
+    else none
+  | [] => none
+
+/-- second alternative: drop the snapshot's oldest segment if it is closed and
+    unreferenced; the snapshot is then no longer replayable -/
+def Mem.gcRdb (s : Mem) : Option Mem :=
+  match s.rdb with
+  | some r =>
+    match r.segs with
     | first :: rest =>
-      if first.closed && mRefs s.readers first.sid == 0 && s.aofW != some first.sid then
-        some { s with segs := rest, total := s.total - first.data.length, heap := first :: s.heap }
+      if first.closed && mRefs s.readers first.sid == 0 then
+        let r' := { r with segs := rest, replayable := false }
+        some { s with rdb := (if rest.isEmpty then none else some r'),
+                      total := s.total - first.data.length, heap := first :: s.heap }
       else none
     | [] => none
-  match aofTry with
+  | none => none
+
+/-- one removal attempt; `none` when nothing can be removed -/
+def Mem.gcOnce (s : Mem) : Option Mem :=
+  match s.gcAof with
   | some s' => some s'
-  | none =>
-    match s.rdb with
-    | some r =>
-      match r.segs with
-      | first :: rest =>
-        if first.closed && mRefs s.readers first.sid == 0 then
-          let r' := { r with segs := rest, replayable := false }
-          some { s with rdb := (if rest.isEmpty then none else some r'),
-                        total := s.total - first.data.length, heap := first :: s.heap }
-        else none
-      | [] => none
-    | none => none
+  | none => s.gcRdb
 
 def Mem.gcLoop (need : Nat) : Nat → Mem → Mem
   | 0, s => s
